@@ -10,7 +10,7 @@ Definition ceq (d' d : node) : Prop :=
   nprev d' = nprev d /\ nnext d' = nnext d /\ nval d' = nval d /\ stage d' = stage d /\
   inch d' = inch d /\ gpred d' = gpred d /\ cons d' = cons d /\ ret d' = ret d.
 
-Lemma frame s s' :
+Lemma frame_gen s s' :
   Inv s ->
   (forall x, ceq (nd s' x) (nd s x) /\ (x <> tail s -> nlink (nd s' x) = nlink (nd s x)) /\
              (nlink (nd s' x) = true -> nlink (nd s x) = true)) ->
@@ -18,7 +18,9 @@ Lemma frame s s' :
   nn s' = nn s -> head s' = head s -> tail s' = tail s -> lastpop s' = lastpop s ->
   bad_order s' = bad_order s -> bad_head s' = bad_head s -> bad_val s' = bad_val s ->
   kclock s <= kclock s' ->
-  (forall p, active (P s' p) = true -> P s' p = P s p) ->
+  (forall p, active (P s' p) = true ->
+     active (P s p) = true /\ qn (P s' p) = qn (P s p) /\ qprev (P s' p) = qprev (P s p) /\
+     qempty (P s' p) = qempty (P s p) /\ qclk (P s' p) = qclk (P s p) /\ stage_of (qp (P s' p)) = stage_of (qp (P s p))) ->
   (kp s' = KP2 -> inch (nd s (kn s')) = true /\ gpred (nd s (kn s')) = tail s /\ stage (nd s (kn s')) = 0 /\ kn s' <> tail s) ->
   (in_remove (kp s') -> ret (nd s (kn s')) = true /\ nlink (nd s' (kn s')) = true /\ nprev (nd s (kn s')) <> None) ->
   (kp s' = KR2 -> nnext (nd s (kn s')) = Some (kx s')) ->
@@ -50,11 +52,12 @@ Proof.
     destruct (nlink (nd s' n)) eqn:E; auto. rewrite (Fl2 n E) in a1. discriminate.
   - apply (N8 _ Hi).
   - apply (NR _ Hi).
-  - intros p Ha. pose proof (HP p Ha) as E. rewrite E in *. pose proof (PP _ Hi p Ha) as Hq. cbv zeta in Hq.
+  - intros p Ha. destruct (HP p Ha) as (a0 & e1 & e2 & e3 & e4 & e5). rewrite e1, e2, e3, e4, e5.
+    pose proof (PP _ Hi p a0) as Hq. cbv zeta in Hq.
     destruct Hq as (q1&q2&q3&q4&q5&q6&q7&q8&q9&q10). repeat split; auto; try lia.
     all: try (apply q8; assumption).
     intros Hc. apply q10. lia.
-  - intros p p' Hne Ha Ha'. pose proof (HP p Ha) as E. pose proof (HP p' Ha') as E'. rewrite E, E' in *. apply (PU _ Hi); assumption.
+  - intros p p' Hne Ha Ha'. destruct (HP p Ha) as (a0 & e1 & _). destruct (HP p' Ha') as (a0' & e1' & _). rewrite e1, e1'. apply (PU _ Hi); assumption.
   - assumption.
   - intros Hk. apply (HK3 Hk).
   - intros Hk. destruct (HK3 Hk) as (_ & a & b). auto.
@@ -62,6 +65,26 @@ Proof.
   - assumption.
   - apply (GH _ Hi).
 Qed.
+
+Lemma frame s s' :
+  Inv s ->
+  (forall x, ceq (nd s' x) (nd s x) /\ (x <> tail s -> nlink (nd s' x) = nlink (nd s x)) /\
+             (nlink (nd s' x) = true -> nlink (nd s x) = true)) ->
+  (forall x, nn s <= x -> nd s' x = nd s x) ->
+  nn s' = nn s -> head s' = head s -> tail s' = tail s -> lastpop s' = lastpop s ->
+  bad_order s' = bad_order s -> bad_head s' = bad_head s -> bad_val s' = bad_val s ->
+  kclock s <= kclock s' ->
+  (forall p, active (P s' p) = true -> P s' p = P s p) ->
+  (kp s' = KP2 -> inch (nd s (kn s')) = true /\ gpred (nd s (kn s')) = tail s /\ stage (nd s (kn s')) = 0 /\ kn s' <> tail s) ->
+  (in_remove (kp s') -> ret (nd s (kn s')) = true /\ nlink (nd s' (kn s')) = true /\ nprev (nd s (kn s')) <> None) ->
+  (kp s' = KR2 -> nnext (nd s (kn s')) = Some (kx s')) ->
+  (spinning (kp s') -> head s <> tail s) ->
+  Inv s'.
+Proof.
+  intros Hi Hn Hun Enn Eh Et El E1 E2 E3 Eck HP. apply frame_gen; auto.
+  intros p Ha. pose proof (HP p Ha) as E. rewrite E in *. repeat split; auto.
+Qed.
+
 
 Ltac step_cases H :=
   unfold step in H;
